@@ -203,9 +203,13 @@ func randomGroup(r *rand.Rand) ([]recSpec, string) {
 	}
 	if r.Intn(3) == 0 {
 		raw := []byte{2, 0, byte(r.Intn(256)), byte(r.Intn(256)), byte(r.Intn(256)), byte(r.Intn(256)), byte(r.Intn(256)), byte(r.Intn(256)), 0, 0, 0, 0, 0, 0, 0, 0}
-		switch r.Intn(5) {
+		switch r.Intn(7) {
 		case 0:
 			raw = append([]byte{1, 0}, []byte("/run/"+coWord(r)+"\x00")...)
+		case 5: // a unix socket without a name: the record says so with an empty path
+			raw = []byte{1, 0}
+		case 6: // an abstract unix socket: the name starts with NUL
+			raw = append([]byte{1, 0, 0}, []byte(coWord(r))...)
 		case 1, 2: // IPv6, with and without flow label and scope id (they become fields of their own)
 			raw = make([]byte, 28)
 			r.Read(raw)
